@@ -679,6 +679,21 @@ func (g *gen) gcHistoryOp(repo int, images, indexes, arts []int, extraBlob int) 
 }
 
 func planC05(prop string, seed uint64, tier string, idx int) *Plan {
+	if idx%12 == 11 {
+		// few index entries reworked over and over (the tag profile of C03), untagged manifests collected at once
+		p := planC03(prop, seed, tier, 3)
+		p.Profile = "gc safety: three tags on two manifests, untagged manifests collected"
+		var ops []Op
+		for _, op := range p.Clients[0] {
+			ops = append(ops, op)
+			if op.K == "gc" {
+				ops = append(ops, Op{K: "retained"})
+			}
+		}
+		p.Clients[0] = append(ops, Op{K: "gc", Repo: -1}, Op{K: "retained"})
+		p.Extra["nontrivial"] = []any{"retained-checked"}
+		return p
+	}
 	g := newGen(seed, tier)
 	g.p.Profile = "gc safety"
 	g.repos(g.r.between(1, 3))
